@@ -158,6 +158,9 @@ func VerifC08_Precedence() {
 	w := &zzWriter{limit: 1 << 20}
 	err := loaded.Render(contextBackground(), w)
 	out := string(w.got)
+	w2 := &zzWriter{limit: 1 << 20}
+	err2 := loaded.Render(contextBackground(), w2)
+	zzAssert(err2 == nil && string(w2.got) == out, "C08.precedence.second-render-differs")
 	zzNote("out", out)
 	zzNote("want", want)
 	zzAssert(err == nil, "C08.precedence.render-error")
